@@ -188,7 +188,7 @@ func genConsumers(rng *rand.Rand, tier string) []string {
 			ncons++
 			nrefs++
 			nent++
-		case r < 20 && ncons-len(accs) < 1:
+		case r < 20 && ncons-len(accs) < 2:
 			out = append(out, []string{"wait", "resolve", "rwr 1", "rwr 1", "rwr 0"}[rng.Intn(5)])
 			ncons++
 			nrefs++
@@ -264,6 +264,10 @@ func init() {
 			// ResolveWithReleased: the release goroutine is held before its removeRef section (3rd lock-enter)
 			// while the next value is stored: a second qualifying notification must not fire released again
 			{"config 0 1 1", "gate lock-enter 3", "rwr 1", "return 0 v 1 0", "settle", "released 0", "settle", "return 1 v 1 0", "settle", "opengate 0", "quiesce", "release 0", "quiesce"},
+			// ResolveWithReleased with a cancelled caller: its own Release wins the once-flag but its removeRef section
+			// is held (2nd lock-enter); the reference is still notified, the release goroutine's Release is a no-op
+			// and `released` runs before the call has returned
+			{"config 0 1 1", "gate lock-enter 2", "rwr 1", "settle", "cancelcall 0", "settle", "return 0 v 1 0", "settle", "setctx 2", "settle", "opengate 0", "quiesce", "return 1 v 1 0", "quiesce"},
 			// ResolveWithReleased: the user releases first, then the value is invalidated; error result
 			{"config 1 1 1", "rwr 1", "return 0 v 1 0", "settle", "release 0", "quiesce", "released 0", "quiesce", "rwr 0", "return 1 v 1 3", "quiesce", "wait", "cancelcall 2", "quiesce"},
 		},
